@@ -380,13 +380,28 @@ func (e *Exception) writeShortStack(b *bytes.Buffer) {
 	}
 }
 
+// valString converts the thrown value to string. If the value is an object this runs JS code (toString(), valueOf(),
+// [Symbol.toPrimitive]() or Proxy handlers) which can throw in turn. That exception must not escape as a Go panic
+// from Error() or String().
+func (e *Exception) valString() (s string) {
+	if obj, ok := e.val.(*Object); ok {
+		if ex := obj.runtime.vm.try(func() {
+			s = obj.String()
+		}); ex != nil {
+			s = "[exception value is not convertible to string]"
+		}
+		return
+	}
+	return e.val.String()
+}
+
 func (e *Exception) String() string {
 	if e == nil {
 		return "<nil>"
 	}
 	var b bytes.Buffer
 	if e.val != nil {
-		b.WriteString(e.val.String())
+		b.WriteString(e.valString())
 		b.WriteByte('\n')
 	}
 	e.writeFullStack(&b)
@@ -399,7 +414,7 @@ func (e *Exception) Error() string {
 	}
 	var b bytes.Buffer
 	if e.val != nil {
-		b.WriteString(e.val.String())
+		b.WriteString(e.valString())
 	}
 	e.writeShortStack(&b)
 	return b.String()
